@@ -74,11 +74,13 @@ func newC16World(r *core.RNG) *c16World {
 			d.JoinNonce = 0
 		case 1:
 			d.JoinNonce = 1<<24 - 1
+		case 2:
+			d.JoinNonce = []int{0x000100, 0x010000, 0x00ffff, 0x0000ff, 1}[r.Intn(5)] // just before / after a byte rollover
 		default:
 			d.JoinNonce = r.Intn(1 << 24)
 		}
 		if r.Bool() {
-			d.ASLabel = fmt.Sprintf("as-%d", i)
+			d.ASLabel = []string{fmt.Sprintf("as-%d", i), fmt.Sprintf("AS %d/key", i), fmt.Sprintf("0x%02x", i), fmt.Sprintf("as-%d", i)}[r.Intn(4)]
 			if r.Chance(3, 4) {
 				w.keks[d.ASLabel] = r.Bytes([]int{16, 24, 32}[r.Intn(3)])
 			}
@@ -197,7 +199,10 @@ func c16MakeRequest(r *core.RNG, w *c16World, forceValid bool) c16Req {
 		"DevEUI": hex.EncodeToString(dev.DevEUI[:]),
 	}
 	if q.kind != "homens" {
-		m["MACVersion"] = "1.0.3"
+		// the property ties the derivation to OptNeg alone; the version string a network server reports varies
+		if v := []string{"1.0.3", "1.0.0", "1.0.1", "1.0.2", "1.0.4", "1.1.0", "1.1", "1.0", "", "-"}[r.Intn(10)]; v != "-" {
+			m["MACVersion"] = v
+		}
 		m["PHYPayload"] = hex.EncodeToString(phy)
 		m["DevAddr"] = hex.EncodeToString(q.devAddr[:])
 		m["DLSettings"] = hex.EncodeToString([]byte{q.dls})
